@@ -23,6 +23,9 @@ type Case struct {
 	// construction).  NoFlush=true is the unmodified peer sequence with every crash point.
 	NoFlush bool `json:"noflush"`
 	Excl    int  `json:"excl,omitempty"` // draws steered away from open findings (reported via r.Excluded)
+	// SmallSeg (bare mode): WAL segments of 64 KiB, so appends roll the segment over by size
+	// in the middle of a Ready (default segments are 64 MiB and only change through Rotate).
+	SmallSeg bool `json:"smallseg,omitempty"`
 }
 
 // Step is one driver step.
@@ -277,6 +280,9 @@ var sizeChoices = []int{0, 1, 7, 40, 40, 300, 300, 5000, 70000}
 func genCase(mode string) func(t *rapid.T) Case {
 	return func(t *rapid.T) Case {
 		c := Case{Mode: mode, Groups: rapid.IntRange(1, 2).Draw(t, "groups")}
+		if mode == "bare" {
+			c.SmallSeg = rapid.IntRange(0, 2).Draw(t, "smallSeg") == 0
+		}
 		if mode == "db" {
 			c.Sync = rapid.Bool().Draw(t, "sync")
 		}
